@@ -14,7 +14,7 @@ cp "$SRC/$DEMO" "$OUT/$DEMO"; cp "$SRC/notes.md" "$OUT/notes.md" 2>/dev/null
 sed -i "s#$WT#$SV#g" "$OUT/$DEMO"
 git -C /repo worktree remove --force "$SV" 2>/dev/null; rm -rf "$SV"
 git -C /repo worktree add -q --detach "$SV" HEAD || exit 1
-run_demo() { (cd "$SV" && if echo "$DEMO" | grep -q test; then PYTHONPATH="$SV/src" timeout 1200 /venv/bin/python -m pytest -q -p no:cacheprovider -x "$OUT/$DEMO" >/tmp/seed_demo_$NAME.log 2>&1; else PYTHONPATH="$SV/src" timeout 1200 /venv/bin/python "$OUT/$DEMO" >/tmp/seed_demo_$NAME.log 2>&1; fi; echo $?); }
+run_demo() { (cd "$SV" && export QUANSINO_SRC="$SV/src" && if echo "$DEMO" | grep -q test; then PYTHONPATH="$SV/src" timeout 1200 /venv/bin/python -m pytest -q -p no:cacheprovider -x "$OUT/$DEMO" >/tmp/seed_demo_$NAME.log 2>&1; else PYTHONPATH="$SV/src" timeout 1200 /venv/bin/python "$OUT/$DEMO" >/tmp/seed_demo_$NAME.log 2>&1; fi; echo $?); }
 D0=$(run_demo)
 git -C "$SV" apply "$OUT/patch.diff" || { echo "PATCH DOES NOT APPLY"; git -C /repo worktree remove --force "$SV"; exit 1; }
 D1=$(run_demo)
